@@ -10,15 +10,54 @@ storage's `MUTABLE`, and the storage-converting methods, as coded).
 namespace RtenVerif.OverlapCtor
 open RtenVerif.Overlap RtenVerif.Layout
 
-/-- Tensors reachable by `(construct | fresh contiguous constructor | convert)*`.
-`fresh` stands for `from_data`, `zeros`, `from_fn`, … (every storage kind, `from_shape`
-layout). -/
+/-- One view operation / in-place layout mutation on a layout, through the functions of
+C09's layout model (`Model/Layout.lean`; the `_mut` views `slice_mut`, `permuted_mut`,
+`index_axis_mut`, `split_at_mut`, `slice_axis_mut`, … and the in-place mutators `permute`,
+`transpose`, `move_axis`, `insert_axis`, `remove_axis`, `merge_axes` run the same layout
+functions as the immutable views) and C06's `TensorBounds.clipDim` for `clip_dim`.  `same` is
+`view_mut`, `nd_view_mut`, `as_dyn_mut`, `into_dyn`, `into_rank`, `assume_init` (layout
+kept).  The view `v` carries an arbitrary storage window. -/
+inductive ViewOp : List (Nat × Nat) → List (Nat × Nat) → Prop
+  | same (d : List (Nat × Nat)) : ViewOp d d
+  | permuted {v v' : View} {p : List Nat} : permuted v p = .ok v' → ViewOp v.dims v'.dims
+  | transposed (v : View) : ViewOp v.dims (transposed v).dims
+  | moveAxis {v v' : View} {src dst : Nat} : moveAxis v src dst = .ok v' → ViewOp v.dims v'.dims
+  | trySlice {v v' : View} {items : List SliceItem} :
+      trySlice v items = .ok v' → ViewOp v.dims v'.dims
+  | sliceAxis {v v' : View} {axis start stop : Nat} :
+      sliceAxis v axis start stop = .ok v' → ViewOp v.dims v'.dims
+  | indexAxis {v v' : View} {axis index : Nat} :
+      indexAxis v axis index = .ok v' → ViewOp v.dims v'.dims
+  | splitAt {v v' : View} {axis mid : Nat} {right : Bool} :
+      splitAt v axis mid right = .ok v' → ViewOp v.dims v'.dims
+  | insertAxis {v v' : View} {index : Nat} : insertAxis v index = .ok v' → ViewOp v.dims v'.dims
+  | removeAxis {v v' : View} {index : Nat} : removeAxis v index = .ok v' → ViewOp v.dims v'.dims
+  | squeezed (v : View) : ViewOp v.dims (squeezed v).dims
+  | mergeAxes (v : View) : ViewOp v.dims (mergedAxes v).dims
+  | clipDim {t t' : TensorBounds.Owned} {dim start stop : Nat} :
+      TensorBounds.clipDim t dim start stop = some t' → ViewOp t.dims t'.dims
+
+/-- Tensors reachable by `(construct | fresh contiguous constructor | convert | viewop | grow)*`.
+* `fresh` – `from_data`, `zeros`, `from_fn`, …, and the in-place `reshape` / `make_contiguous`
+  when they copy (every storage kind, `from_shape` layout);
+* `viewop` – any view operation or in-place layout mutation; the result may sit on any storage
+  kind that is not "more mutable" than the source (`slice_mut` of a `Vec` tensor is a
+  `ViewMutData` view, `slice` of anything is a `ViewData` view, `permute` keeps the kind);
+* `grow` – `append` on an owned tensor (C06's `TensorBounds.append`, any storage length and
+  capacity). -/
 inductive Reach (P : Table) (fixed : Bool) : T → Prop
   | construct {c : Ctor} {k : Kind} {dims : List (Nat × Nat)} {len : Nat} {t : T} :
       construct P c k dims len = some t → Reach P fixed t
   | fresh (k : Kind) (shape : List Nat) : Reach P fixed ⟨k, contigDims shape⟩
   | convert {t t' : T} {cv : Conv} :
       Reach P fixed t → convert fixed cv t = some t' → Reach P fixed t'
+  | viewop {t : T} {d' : List (Nat × Nat)} {k' : Kind} :
+      Reach P fixed t → ViewOp t.dims d' → (k'.mutable = true → t.kind.mutable = true) →
+      Reach P fixed ⟨k', d'⟩
+  | grow {d : List (Nat × Nat)} {len cap axis : Nat} {other : List (Nat × Nat)}
+      {t' : TensorBounds.Owned} :
+      Reach P fixed ⟨.vec, d⟩ → TensorBounds.append ⟨d, len, cap⟩ axis other = .ok t' →
+      Reach P fixed ⟨.vec, t'.dims⟩
 
 /-- The table runs the overlap check whenever the storage is mutable (the two constructors
 that exist for mutable storage; `from_slice_with_strides` is `ViewData` only). -/
@@ -29,6 +68,63 @@ theorem seededTable_mutChecked : MutChecked seededTable := ⟨rfl, rfl⟩
 
 theorem fresh_accepted (d : List (Nat × Nat)) : mayOverlap (fresh d) = false :=
   c08_contig_accepted _ (c08_contigDims_contiguous _)
+
+theorem setSize_split : ∀ (dims : List (Nat × Nat)) (axis n : Nat), axis < dims.length →
+    ∃ pre post size stride, dims = pre ++ (size, stride) :: post ∧
+      TensorBounds.setSize dims axis n = pre ++ (n, stride) :: post ∧
+      TensorBounds.sizeAt dims axis = size := by
+  intro dims
+  induction dims with
+  | nil => intro axis n h; simp at h
+  | cons x xs ih =>
+    intro axis n h
+    obtain ⟨size, stride⟩ := x
+    cases axis with
+    | zero => exact ⟨[], xs, size, stride, rfl, rfl, rfl⟩
+    | succ a =>
+      obtain ⟨pre, post, sz, st, h1, h2, h3⟩ := ih a n (by simpa using h)
+      refine ⟨(size, stride) :: pre, post, sz, st, by rw [h1]; rfl, ?_, ?_⟩
+      · simp only [TensorBounds.setSize, h2]; rfl
+      · simpa [TensorBounds.sizeAt] using h3
+
+/-- `clip_dim` (C06's model) keeps an accepted layout accepted. -/
+theorem clipDim_accepted {t t' : TensorBounds.Owned} {dim start stop : Nat}
+    (h : TensorBounds.clipDim t dim start stop = some t') (ha : mayOverlap t.dims = false) :
+    mayOverlap t'.dims = false := by
+  unfold TensorBounds.clipDim at h
+  split at h
+  · rename_i hv
+    have hd : t'.dims = TensorBounds.setSize t.dims dim (stop - start) := by
+      simp only at h
+      repeat' split at h
+      all_goals first | (cases h; done) | (cases h; rfl)
+    obtain ⟨pre, post, size, stride, h1, h2, h3⟩ :=
+      setSize_split t.dims dim (stop - start) hv.1
+    rw [hd, h2]
+    rw [h1] at ha
+    have := c08_slice_accepted pre post size stride (stop - start) 1 (Nat.le_refl _)
+      (by omega) ha
+    simpa using this
+  · cases h
+
+/-- **C08.T5** Every modelled view operation / in-place layout mutation preserves the overlap
+verdict: `mayOverlap d = false → ViewOp d d' → mayOverlap d' = false`. -/
+theorem c08_viewOp_accepted {d d' : List (Nat × Nat)} (h : ViewOp d d')
+    (ha : mayOverlap d = false) : mayOverlap d' = false := by
+  cases h with
+  | same => exact ha
+  | permuted hop => exact c08_permuted_accepted _ _ _ ha hop
+  | transposed v => exact c08_transposed_accepted v ha
+  | moveAxis hop => exact c08_moveAxis_accepted _ _ _ _ ha hop
+  | trySlice hop => exact c08_trySlice_accepted _ _ _ ha hop
+  | sliceAxis hop => exact c08_sliceAxis_accepted _ _ _ _ _ ha hop
+  | indexAxis hop => exact c08_indexAxis_accepted _ _ _ _ ha hop
+  | splitAt hop => exact c08_splitAt_accepted _ _ _ _ _ ha hop
+  | insertAxis hop => exact c08_insertAxis_accepted _ _ _ ha hop
+  | removeAxis hop => exact c08_removeAxis_accepted _ _ _ ha hop
+  | squeezed v => exact c08_squeezed_accepted v ha
+  | mergeAxes v => exact c08_mergeAxes_accepted v ha
+  | clipDim hop => exact clipDim_accepted hop ha
 
 theorem construct_spec {P : Table} {c : Ctor} {k : Kind} {dims : List (Nat × Nat)} {len : Nat}
     {t : T} (h : construct P c k dims len = some t) :
@@ -50,12 +146,13 @@ theorem construct_spec {P : Table} {c : Ctor} {k : Kind} {dims : List (Nat × Na
         | false => rfl
         | true => simp [hd, hov] at hpol
 
-/-- **C08.T5** (invariant over `(construct | convert)*`, conversions as coded after fix
-`f62aa2c`) For every policy table that checks mutable storage — the code's table, and also
-the seeded one — every reachable tensor with MUTABLE storage has a layout that passes
-`may_have_internal_overlap`: each path into a mutable kind goes through a `DisallowOverlap`
-constructor, the check in `into_owned`, a layout-preserving step from a mutable kind, or a
-copy into a fresh contiguous layout. -/
+/-- **C08.T5** (invariant over `(construct | convert | viewop | grow)*`, conversions as coded
+after fix `f62aa2c`) For every policy table that checks mutable storage — the code's table,
+and also the seeded one — every reachable tensor with MUTABLE storage has a layout that
+passes `may_have_internal_overlap`: each path into a mutable kind goes through a
+`DisallowOverlap` constructor, the check in `into_owned` or `expanded_layout`, a
+verdict-preserving view operation / layout mutation from a mutable kind, or a copy into a
+fresh contiguous layout. -/
 theorem c08_mutable_reachable_accepted (P : Table) (hP : MutChecked P) (t : T)
     (h : Reach P true t) (hm : t.kind.mutable = true) : mayOverlap t.dims = false := by
   induction h with
@@ -78,12 +175,18 @@ theorem c08_mutable_reachable_accepted (P : Table) (hP : MutChecked P) (t : T)
       | (cases hc; first
           | exact fresh_accepted _
           | exact ih rfl
-          | (simp [Kind.mutable] at hm; done))
+          | (simp [Kind.mutable] at hm; done)
+          | (show mayOverlap (List.reverse _) = false
+             rw [accept_perm (List.reverse_perm _)]; exact ih rfl))
       | (split at hc <;> cases hc <;> first
           | exact fresh_accepted _
           | exact ih rfl
           | (simp [Kind.mutable] at hm; done)
           | simp_all)
+  | @viewop t d' k' _ hop hk ih =>
+    exact c08_viewOp_accepted hop (ih (hk hm))
+  | @grow d len cap axis other t' _ happ _ =>
+    exact (c08_append_grown_injective _ _ _ _ happ).2.1
 
 /-- **C08.T5** … hence no two distinct valid indices of a reachable mutable tensor share a
 storage offset. -/
@@ -103,6 +206,24 @@ example : Reach codeTable true ⟨.arc, [(3, 2), (4, 8)]⟩ ∧ Kind.mutable .ar
   have h1 : Reach codeTable true ⟨.cowO, [(3, 2), (4, 8)]⟩ := .convert (cv := .intoCow) h0 (by decide)
   have h2 : Reach codeTable true ⟨.vec, [(3, 2), (4, 8)]⟩ := .convert (cv := .intoOwned) h1 (by decide)
   exact .convert (cv := .intoArc) h2 (by decide)
+
+/-- Non-vacuity for the `viewop` and `grow` steps: an owned 4×5×6 tensor, transposed in place
+(`Vec` storage kept), then `slice_mut(1..;2)` of axis 0 (a `ViewMutData` view with the
+non-contiguous layout `[(3,2),(5,6),(4,30)]`); and a `with_capacity([2,4], 0)` tensor grown
+by `append`. -/
+example : Reach codeTable true ⟨.viewMut, [(3, 2), (5, 6), (4, 30)]⟩ ∧
+    Reach codeTable true ⟨.vec, [(2, 4), (4, 1)]⟩ := by
+  constructor
+  · have h0 : Reach codeTable true ⟨.vec, contigDims [4, 5, 6]⟩ := .fresh .vec [4, 5, 6]
+    have h1 : Reach codeTable true ⟨.vec, (transposed ⟨0, 120, contigDims [4, 5, 6]⟩).dims⟩ :=
+      .viewop h0 (.transposed ⟨0, 120, contigDims [4, 5, 6]⟩) (fun _ => rfl)
+    have hop : trySlice (transposed ⟨0, 120, contigDims [4, 5, 6]⟩) [.range ⟨1, none, 2⟩] =
+        .ok ⟨1, 119, [(3, 2), (5, 6), (4, 30)]⟩ := by decide
+    exact .viewop (k' := .viewMut) h1 (.trySlice hop) (fun _ => rfl)
+  · have h0 : Reach codeTable true ⟨.vec, [(0, 4), (4, 1)]⟩ := .fresh .vec [0, 4]
+    have happ : TensorBounds.append ⟨[(0, 4), (4, 1)], 0, 12⟩ 0 [(2, 0), (4, 0)] =
+        .ok ⟨[(2, 4), (4, 1)], 8, 12⟩ := by decide
+    exact .grow h0 happ
 
 /-- **Finding (fixed, `f62aa2c`)**: with `into_owned` as it was (owned arm moves the layout
 unconditionally) the invariant is FALSE for the code's own table:
